@@ -322,7 +322,7 @@ func c17Run(e *Env, p *c17Plan, subs []simnet.Faults) {
 			e.Violation("not-closed", "conn %d: the hijack handler returned and the server left the connection open", ci)
 			return
 		}
-		if !bytes.Contains(ex.Trailing, []byte("HJ-ACK")) && ex.WriteErr == nil {
+		if !bytes.Contains(ex.Trailing, []byte("HJ-ACK")) && ex.WriteErr == nil && c.SrvWriteFailAt == 0 {
 			e.Violation("handler-write-lost", "conn %d: bytes written by the hijack handler did not reach the client (%q)", ci, clip(string(ex.Trailing), 200))
 			return
 		}
